@@ -305,7 +305,6 @@ def ob_config_independence(has_h1: bool, h1_s1: bool, h1_s2: bool, has_h2: bool,
     """
     pre: _layout_ok(has_h1, h1_s1, h1_s2, has_h2, h2_s1, h2_s2) and 1 <= m <= 2
     pre: FULL or not second_run
-    pre: not (dv and (has_h1 or has_h2 or has_hw))  # TEMP-EXCLUDE
     post: _
     """
     has_h1, h1_s1, h1_s2, has_h2, h2_s1, h2_s2, has_hw, dv, second_run = (
